@@ -194,4 +194,32 @@ pub fn run(r: &mut Runner) {
             }
         });
     }
+    {
+        let gs = crate::fx::generic_stream(if quick { 15000 } else { 1500000 }, 118, -40, 9);
+        let ngs = gs.len();
+        r.notes.push(format!("generic stream for hyperbolic functions: {} operands of a fixed Weyl sequence (full-size mantissas in both words, exponents -40..9)", ngs));
+        r.par("generic stream: hyperbolic functions", ngs.div_ceil(64), ngs as u64, |c, l| {
+            for i in (c * 64)..((c + 1) * 64).min(ngs) {
+                for call in 0..6 {
+                    let x = if call == 4 { [gs[i][0].abs() + 1.0, 0.0] } else { gs[i] };
+                    let v = judge(call, x, Some(l));
+                    rec.record(l, (1u64 << 58) + (i * 6 + call) as u64, v);
+                }
+            }
+        });
+    }
+    {
+        let gs = crate::fx::generic_stream(if quick { 8000 } else { 800000 }, 1180, 1, 59);
+        let ngs = gs.len();
+        r.notes.push(format!("generic stream for asinh/acosh (large arguments): {} operands of a fixed Weyl sequence (full-size mantissas in both words, exponents 1..59)", ngs));
+        r.par("generic stream: asinh/acosh (large arguments)", ngs.div_ceil(64), ngs as u64, |c, l| {
+            for i in (c * 64)..((c + 1) * 64).min(ngs) {
+                for call in [3usize, 4] {
+                    let x = if call == 4 { [gs[i][0].abs(), if gs[i][0] < 0.0 { -gs[i][1] } else { gs[i][1] }] } else { gs[i] };
+                    let v = judge(call, x, Some(l));
+                    rec.record(l, (1u64 << 57) + (i * 6 + call) as u64, v);
+                }
+            }
+        });
+    }
 }
